@@ -518,6 +518,15 @@ def _extract_item(it, repo, extra_sources, region_base, dropped, externals):
         elif o == "replace":
             ms = ANCH.findall(arg)
             item.op_replace(sub, ms[0], ms[1])
+        elif o == "replace_opt":
+            # a spelling the source may or may not use (e.g. an explicit turbofish that
+            # must gain a `_` for the extra generic parameter of rule R2): rewritten where
+            # present, nothing to do where absent
+            ms = ANCH.findall(arg)
+            try:
+                item.op_replace(sub, ms[0], ms[1])
+            except ExtractError:
+                pass
         else:
             raise ExtractError("unknown op " + o)
     text, regs = item.render(region_base)
